@@ -19,7 +19,7 @@ PROPS = {
                       "axioms |s| <= usize::MAX and the byte range of &s[a..b]. UTF-8 offset facts are proved from vstd::utf8, not assumed.",
     },
     "C02": {
-        "units": ["dewey"],
+        "units": ["dewey", "pattern", "pkgname"],
         "always_devs": ["letter_value_is_ascii_code"],
         "design_ref": "DESIGN.md section 8 / C02",
         "replay": "dewey",
@@ -42,6 +42,44 @@ PROPS = {
                       "reflexivity, antisymmetry/swap, trichotomy, duality and transitivity are lemmas over cmp3.",
         "level_note": VERUS_TRUST + "assumed contract of core::cmp::min. "
                       "The laws are over arbitrary integer vectors, so they cover whatever DeweyVersion::new returns on any string.",
+    },
+    "C04": {
+        "units": ["pattern", "dewey", "pkgname"],
+        "always_devs": ["letter_value_is_ascii_code"],
+        "design_ref": "DESIGN.md section 8 / C04",
+        "replay": "pattern",
+        "level_text": "Unbounded proof on the real functions: Pattern::new accepts a brace pattern exactly when its braces are "
+                      "properly nested (scan invariant over all chars); alternate_match (mutually recursive with matches/new, "
+                      "termination by the number of '{') returns exactly amatch: some comma-separated alternative of the right-most "
+                      "group, substituted, matches as a pattern in its own right (pmatch: dewey / glob / plain, false when it does not "
+                      "compile). The identity of right-most-first expansion with csh's left-to-right expansion is NOT proved here: it is "
+                      "checked exhaustively for short patterns in the thorough tier (bounded, labelled so).",
+        "level_note": VERUS_TRUST + "shims: rfind/find(char), split(','), format!(\"{}{}{}\"), contains(char), split_at (vstd); glob crate as "
+                      "uninterpreted glob_ok/glob_match; contracts of Dewey::new/matches imported from unit dewey (verified in the same run).",
+    },
+    "C05": {
+        "units": ["pattern", "dewey", "pkgname"],
+        "always_devs": ["letter_value_is_ascii_code"],
+        "design_ref": "DESIGN.md section 8 / C05",
+        "replay": "pattern",
+        "level_text": "Unbounded proof: Pattern::new dispatches exactly by the statement's table (braces, then '<' '>', then any of * ? [ ], "
+                      "else plain) and reports a glob compile error; matches returns pmatch: identical string for plain patterns, "
+                      "glob_match for globs; quick_pkg_match equals the two-character test `quick`, and lemma_quick_inert proves "
+                      "!quick(p,n) ==> !pmatch(p,n) for every pattern kind (by induction on brace groups), so the early return never changes an answer.",
+        "level_note": VERUS_TRUST + "that glob_match IS shell-glob semantics is the glob crate's contract (assumed, not proved); axiom G1: a compiled "
+                      "glob's leading alphanumeric/'-' characters only match themselves; char::is_ascii_alphanumeric (scalar, Kani-checked in thorough).",
+    },
+    "C06": {
+        "units": ["pattern", "dewey", "pkgname"],
+        "always_devs": ["letter_value_is_ascii_code"],
+        "design_ref": "DESIGN.md section 8 / C06",
+        "replay": "pattern",
+        "level_text": "Unbounded proof: best_match returns None iff neither matches, the only matching one, or best(a,b) = higher "
+                      "dewey version with ties to the byte-wise smaller name; `better` is proved a strict total order on names "
+                      "(from the C03 laws + lexicographic order lemmas + injectivity of UTF-8 encoding), best is commutative, and every "
+                      "pairwise reduction tree over the same candidates yields the same winner (lemma_reduction_order_independent).",
+        "level_note": VERUS_TRUST + "shim: str < str is byte-wise lexicographic (assumed std contract); contracts of DeweyVersion::new, dewey_cmp, "
+                      "PkgName::new/pkgversion imported from the units that prove them (run in the same check). Reduction lemma is stated over matching candidates.",
     },
     "C18": {
         "units": ["pkgname", "dewey"],
